@@ -71,9 +71,9 @@ func runC10(r *Run) {
 	}
 	termKind := 0
 	if pingFlavour {
-		termKind = []int{4, 2}[t.Draw(2)]
+		termKind = []int{4, 2, 3}[t.Draw(3)]
 	} else {
-		termKind = []int{0, 2, 1}[t.Draw(3)]
+		termKind = []int{0, 2, 1, 3}[t.Draw(4)]
 	}
 	termDelay := []time.Duration{time.Millisecond, time.Second, 8 * time.Second}[t.Draw(3)]
 	termByCancel := t.Draw(2) == 1 // cancel() from a timer instead of a deadline
@@ -365,7 +365,21 @@ func runC10(r *Run) {
 					r.S.Go("bgping", func() { c.Ping(bg) })
 					r.S.ParkE("a.prog.waitping", func() bool { return rc.Lib.InWriteLocked() }, nil)
 				}
-				err = c.Write(ctx, websocket.MessageBinary, Payload{Kind: 2, Len: 40000, Seed: 3}.Bytes())
+				if termKind == 3 {
+					// a streaming Writer fed with chunks smaller than the write buffer:
+					// the call that overflows the buffer blocks in the transport
+					w, e := c.Writer(ctx, websocket.MessageBinary)
+					chunk := Payload{Kind: 2, Len: []int{1500, 700, 4000}[int(termDelay/time.Millisecond)%3], Seed: 3}.Bytes()
+					for i := 0; i < 40 && e == nil; i++ {
+						_, e = w.Write(chunk)
+					}
+					if e == nil {
+						e = w.Close()
+					}
+					err = e
+				} else {
+					err = c.Write(ctx, websocket.MessageBinary, Payload{Kind: 2, Len: 40000, Seed: 3}.Bytes())
+				}
 			default:
 				withholdPong = true
 				err = c.Ping(ctx)
